@@ -3,7 +3,7 @@ Oracle: MIRSem.tla run on the program as written (real calls, fresh alloca block
 extension).  Implementation: MIR_interp after MIR_link, with calls as written (`call`: small callees are inlined by
 the size heuristic), with every helper call turned into `inline`, and in a library built with inlining disabled."""
 import json, collections
-import vlib, progs
+import vlib, progs, families
 from vlib import Check, MachineryError
 
 PROP = "C04"
@@ -20,10 +20,20 @@ def run(tier, cases=None):
         ck.setc("states", r.states); ck.setc("transitions", r.states)
     else:
         ck.setc("states", len(cases)); ck.setc("transitions", len(cases))
+    if tier in ("quick", "thorough") and len(cases) > 100:
+        # parametric families (see families.py): shapes the simplifier rewrites, decided by MIRRun.tla
+        fam, rf = progs.run_family((families.fpcmp_cases() if tier == "quick" else families.fpcmp_cases(vals=tuple(families.FPV)))
+                                   + families.alloca_loop_cases())
+        cases = cases + fam
+        ck.setc("family_cases", len(fam))
     st = collections.Counter(c["status"] for c in cases)
     nexec = 0
+    allobs = {}
     for variant, inl, mfirst, name in CONFIGS:
-        obs, texts = progs.run_cases(cases, ["interp"], variant=variant, inline_calls=inl, main_first=mfirst)
+        allobs[name] = progs.run_cases(cases, ["interp"], variant=variant, inline_calls=inl, main_first=mfirst)
+    inconclusive = 0
+    for variant, inl, mfirst, name in CONFIGS:
+        obs, texts = allobs[name]
         for i, per in sorted(obs.items()):
             c = cases[i]
             so, nans = progs.spec_obs(c)
@@ -32,6 +42,12 @@ def run(tier, cases=None):
             if msg:
                 again, _ = progs.run_cases([c], ["interp"], variant=variant, inline_calls=inl, main_first=mfirst)
                 msg = progs.compare_obs(so, again[0]["interp"], nans, "spec", "interp[%s]" % name)
+            if msg and c.get("stack_kb") and per["interp"].status != "ok":
+                # run with a reduced C stack: only a verdict if the same program survives as written in the library that never inlines
+                ref = allobs["noinline-lib"][0].get(i, {}).get("interp")
+                if name == "noinline-lib" or ref is None or ref.status != "ok":
+                    inconclusive += 1
+                    continue
             if msg:
                 # is it the link-time transformation?  the same program without inlining agrees => attribute to inlining
                 ck.violation("link:%s:%s" % (name, msg.split(" ")[0]), "program %d %s: %s" % (i, name, msg),
@@ -47,6 +63,7 @@ def run(tier, cases=None):
     ck.setc("discarded_undefined", len(cases) - st.get("done", 0))
     ck.setc("call_sites_by_callee", {str(k): v for k, v in calls.items()})
     ck.setc("traces_validated_against_impl", nexec)
+    ck.setc("reduced_stack_runs_inconclusive", inconclusive)
     ck.setc("configs", [c[3] for c in CONFIGS])
     ck.setc("rule", "behaviours of MIRProg.tla biased to calls/alloca/branches (MIRProg_c04.cfg); each well-defined program is linked and "
                     "interpreted as written, with all helper calls as `inline`, and in a library with inlining thresholds 0; "
